@@ -11,6 +11,7 @@ N2  helpers that are not in sa/pinned_functions.json (introduced after the rules
 N3  equivalent spellings:  np.flatnonzero(m) -> np.where(m)[0];  x[::-1] -> np.flip(x, axis=0);
     (f(x) for x in (a, b, c)) -> (f(a), f(b), f(c))   (comprehension / generator over a literal tuple or list)
 N4  unpacking of a name (not of a call):  a, b = p  ->  a = p[0]; b = p[1]   (nested patterns too)
+N7  list comprehensions and generator expressions become explicit append loops
 N6  module-level constant expressions (NAME = np.pi / (2 * 9.81), bound once) are substituted where functions load NAME
 N5  row views of a freshly allocated local array:  v = X[a:]; v[:, j] = e  ->  X[a:, j] = e   (bare loads of v -> X[a:])
 
@@ -349,6 +350,27 @@ def _stmt(st, ctx, cls, selfname, depth):
         un = _unpack(st.targets[0].elts, st.value, st)
         if un is not None:
             return _block(un, ctx, cls, selfname, depth)
+    # N7 list comprehensions / generator expressions become explicit loops:  x = [E for v in IT if C]  ->  x = []; for v in IT: if C: x.append(E)
+    comp = _contains(header, (ast.ListComp, ast.GeneratorExp), stop=(ast.Lambda, ast.SetComp, ast.DictComp, ast.FunctionDef, ast.ClassDef))
+    if comp is not None and not any(g.is_async for g in comp.generators):
+        direct = isinstance(st, ast.Assign) and st.value is comp and len(st.targets) == 1 and isinstance(st.targets[0], ast.Name) and \
+            isinstance(comp, ast.ListComp)
+        lname = st.targets[0].id if direct else ctx.fresh("_comp")
+        init = _assign([_name(lname, ast.Store(), st)], ast.List(elts=[], ctx=ast.Load()), st)
+        body = [ast.copy_location(ast.Expr(value=ast.Call(func=ast.Attribute(value=_name(lname, ast.Load(), st), attr="append", ctx=ast.Load()),
+                                                         args=[comp.elt], keywords=[])), st)]
+        for g in reversed(comp.generators):
+            for c_ in reversed(g.ifs):
+                body = [ast.copy_location(ast.If(test=c_, body=body, orelse=[]), st)]
+            body = [ast.copy_location(ast.For(target=g.target, iter=g.iter, body=body, orelse=[]), st)]
+        pre = [ast.fix_missing_locations(init)] + [ast.fix_missing_locations(b) for b in body]
+        out_ = []
+        for x in pre:
+            out_.extend(_stmt(x, ctx, cls, selfname, depth))
+        if direct:
+            return out_
+        st2 = ast.fix_missing_locations(_Replace(comp, _name(lname, ast.Load(), comp)).visit(st))
+        return out_ + _stmt(st2, ctx, cls, selfname, depth)
     # N4b parallel assignment of independent values: a, b = x, y -> a = x; b = y (no target occurs in any value)
     if isinstance(st, ast.Assign) and len(st.targets) == 1 and isinstance(st.targets[0], (ast.Tuple, ast.List)) and \
             isinstance(st.value, (ast.Tuple, ast.List)) and len(st.targets[0].elts) == len(st.value.elts) and \
